@@ -609,6 +609,33 @@ SYNTH_STATIC = {
         return;
     }
 }''',
+    '__zip_next': '''fn __zip_next(_1: &mut I) -> Option {
+    bb0: {
+        _2 = __adapt_inner_next(copy _1) -> [return: bb1, unwind continue];
+    }
+    bb1: {
+        _3 = discriminant(_2);
+        switchInt(move _3) -> [0: bb5, otherwise: bb2];
+    }
+    bb2: {
+        _4 = __adapt_second_next(copy _1) -> [return: bb3, unwind continue];
+    }
+    bb3: {
+        _5 = discriminant(_4);
+        switchInt(move _5) -> [0: bb5, otherwise: bb4];
+    }
+    bb4: {
+        _6 = move ((_2 as Some).0: A);
+        _7 = move ((_4 as Some).0: B);
+        _8 = (move _6, move _7);
+        _0 = Option::<T>::Some(move _8);
+        return;
+    }
+    bb5: {
+        _0 = Option::<T>::None;
+        return;
+    }
+}''',
     '__peek_next_if': '''fn __peek_next_if(_1: &mut P, _2: F) -> Option {
     bb0: {
         _3 = Peekable::<I>::peek(copy _1) -> [return: bb1, unwind continue];
@@ -1755,6 +1782,12 @@ def model(ex, st, c, args):
     if c in ('__iter_next',) or re.fullmatch(r'<.* as Iterator>::next', c):
         it = D(args[0])
         return iter_next(ex, st, it, args[0], c)
+    if c in ('once', 'std::iter::once', 'core::iter::once'):
+        return OwnIter([args[0]])
+    if c in ('std::iter::repeat_n', 'core::iter::repeat_n') and isinstance(args[1], Int):
+        return OwnIter([copy_value(args[0]) for _ in range(ex.concrete_int(args[1]))])
+    if c.endswith(' as Iterator>::zip'):
+        return AdaptV('zip', args[0], args[1])
     if c in ('std::iter::from_fn', 'core::iter::from_fn'):
         return AdaptV('from_fn', None, args[0])
     if c in ('Peekable::next_if', 'Peekable::next_if_eq'):
@@ -2815,6 +2848,8 @@ def iter_next(ex, st, it, handle, c):
         return some(v)
     if isinstance(it, AdaptV):
         end = ex.ref_chain_end(handle)
+        if it.kind == 'zip':
+            return ('BODY', synth_static(ex, '__zip_next'), [end])
         if it.kind == 'from_fn':
             return call_value(ex, st, Ref(end.cell, list(end.path) + [('attr', 'fn')], mut=True), [])
         if it.kind == 'filter_map':
